@@ -6,7 +6,7 @@ from . import nf_common, nfq
 
 MANIFEST = {
     "text": "Who-may-construct and must-pass-through rules over the normal form of the tree builder's dispatch: ProcessResult::EncodingIndicator is constructed only in the InHead rule, only for a start tag named meta, after the element was inserted, from the charset attribute first and otherwise from content under an ASCII-case-insensitive http-equiv=content-type test; it is propagated unchanged through process_to_completion, emit_current_tag and run; foreign content never constructs it. Plus the reviewed normal forms of encoding.rs, the driver and the InHead rule. The byte sets of the meta charset scanner (whitespace skipping, end of an unquoted value), extracted as complete tables of the closures, are the standard's (R19.5).",
-    "note": 'Decides R19.1-R19.5. Not decided: the byte-offset arithmetic of extract_a_character_encoding_from_a_meta_element beyond equality with its reviewed normal form. Also decided: every declaring <meta> path in InHead ends in the indicator (R19.1 completeness). Also decided: process_to_completion never drops an indicator (R19.3 completeness). Round 6: only the in-head rule inserts a meta element (R19.7), get_attribute selects by name only (R19.8). Round 7: charset found by its seven bytes only, http-equiv compared as it is (R19.9).',
+    "note": 'Decides R19.1-R19.5. Not decided: the byte-offset arithmetic of extract_a_character_encoding_from_a_meta_element beyond equality with its reviewed normal form. Also decided: every declaring <meta> path in InHead ends in the indicator (R19.1 completeness). Also decided: process_to_completion never drops an indicator (R19.3 completeness). Round 6: only the in-head rule inserts a meta element (R19.7), get_attribute selects by name only (R19.8). Round 7: charset found by its seven bytes only, http-equiv compared as it is (R19.9). Round 8: R19.10 the tokenizer\'s feed() hands the indicator on whatever is left in the queue.',
     "technique": 'who-may-construct + guard-dominance rules over function normal forms',
 }
 LEVEL = "other"
